@@ -155,6 +155,9 @@ def streams(ctx):
     ctx.run_cases(HIST, "same-class-pairs-within-one-clock-second", _pairs_in_one_second(rng), exhaustive=True, sample_every=41)
     ctx.run_cases(HIST, "sequences-within-one-clock-second", _sequences(rng, ctx.n(40, 1000), burst=True), exhaustive=False, sample_every=20)
     ctx.run_cases(HIST, "sequences-in-which-some-logins-are-not-answered", _sequences(rng, ctx.n(100, 2000), faults=True), exhaustive=False, sample_every=50)
+    # a device that takes its time (up to two minutes of the loop's virtual clock) over some replies: nothing is lost, so nothing changes
+    slow = [HH.with_slow_replies(rng, h) for h in _sequences(rng, ctx.n(80, 1500))]
+    ctx.run_cases(HIST, "sequences-with-a-device-that-is-slow-to-answer-under-a-virtual-clock", slow, exhaustive=False, sample_every=40)
     ctx.run_cases(HIST, "two-instances-interleaved", _interleaved(rng, ctx.n(250, 7000)), exhaustive=False, sample_every=120)
     # two clients of ONE device (same address, same API class), connected at the same time
     same = [dict(h, same_ip=True) for h in _interleaved(rng, ctx.n(120, 3000)) if h["instances"][0]["api"] == h["instances"][1]["api"]]
